@@ -63,6 +63,22 @@ def r_copyshape(f):
             whole = any(x[0] == "call" and x[2] == "data_mut" for x in walk(dst)) and any(x == ("param", 2) for x in walk(src))
         first_writes = writes
         ok = whole or (bool(guard_blocks) and all(any(gok in dom.get(w, set()) for _, gok, _ in guard_blocks) for w in first_writes) and bool(first_writes))
+        if not ok and guard_blocks and first_writes:
+            # a mutable borrow / cursor taken BEFORE the guard (`let dest = self.data_mut(); assert_eq!(dest.len(), src.len())`) writes
+            # nothing by itself: what must lie behind the guard is every loop, std slice copy and other write
+            ACCESSORS = ("rows_mut", "data_mut", "cells_mut", "col_mut", "view_mut")
+            wname = {bi: fn["name"] for bi, t, fn in b.calls() if fn}
+            early = [w for w in first_writes if wname.get(w) in ACCESSORS and any(w in dom.get(gbi, set()) for gbi, _, _ in guard_blocks)]
+            if early:
+                first_writes = [w for w in first_writes if w not in early]
+        if not ok and guard_blocks and not first_writes:
+            # no write CALL of the crate: the cells are stored through std iterators (`for (d, s) in dest.iter_mut().zip(src) { *d = *s }`)
+            # or a std slice copy per piece; then every loop and every std copy must lie behind the guard
+            reach0 = b.reachable(0)
+            loops_ = [x for x in reach0 if not b.blocks[x]["cleanup"] and any(x in b.reachable(y) for y in b.succs(x))]
+            stores_ = loops_ + [bi for bi, _, _ in std_copy]
+            ok = bool(stores_) and all(any(gok in dom.get(w, set()) or gok == w for _, gok, _ in guard_blocks) for w in stores_)
+            first_writes = stores_
         if not ok and not guard_blocks:
             # the whole job forwarded to one private helper that receives (self, src): judge the helper's own guard and writes
             fw = [(t, f.crate_fn_for_call(fn)) for _, t, fn in b.calls() if fn and f.crate_fn_for_call(fn) is not None and f.crate_fn_for_call(fn).kind != "Closure"]
@@ -563,6 +579,15 @@ def r_conv(f):
             e = strip(d.local_expr(0))
             ret_ok = e == ("field", ("param", 1), di)
         ok = ret_ok and all(nm in allowed for nm in names) and len(names) <= 1 and not b.has_loop()
+        if not ok and not b.has_loop() and calls:
+            # .. or hands the whole array to the crate's own (judged) conversion into a Vec first: `Box::from(Vec::from(toodee))`,
+            # `Vec::from(self).into_iter()`
+            t0, fn0 = calls[0]
+            cb0 = f.crate_fn_for_call(fn0)
+            a00 = strip(d.expr(t0["args"][0])) if t0["args"] else None
+            if cb0 is not None and cb0.ident == "Vec as From<toodee::TooDee<T>>::from" and a00 == ("param", 1) and len(calls) <= 2 and ident != cb0.ident:
+                rest = [fn_["name"] for _, fn_ in calls[1:]]
+                ok = all(nm in ("from", "into", "into_boxed_slice", "into_iter") for nm in rest)
         R.inst(b.ident, "moves the backing Vec whole (%s)" % (names or "field move"), ok)
         if not ok:
             R.fail(b.ident, "not-whole-move", "%s no longer moves the array's Vec whole (calls %s): cells could be reordered, dropped or duplicated on conversion" % (b.ident, names), b.where())
@@ -734,8 +759,31 @@ def r_conv(f):
                     for nm in three:
                         e = strip(d.expr(st["rv"]["fields"][fn_.index(nm)]))
                         src_ok = any(x[0] == "field" and x[2] == fidx[nm] and strip(x[1]) in (("deref", ("param", 1)), ("param", 1)) for x in walk(e))
-                        if nm == "data":
-                            src_ok = src_ok and e[0] == "call" and e[2] in ("clone", "to_vec", "to_owned")
+                        if nm == "data" and not (src_ok and e[0] == "call" and e[2] in ("clone", "to_vec", "to_owned")):
+                            # a fresh Vec (`Vec::with_capacity(..)` / `Vec::new()`) filled by exactly one whole-buffer transfer from
+                            # self.data (`extend_from_slice(&self.data)`, `extend(self.data.iter().cloned())`, `clone_from(&self.data)`)
+                            fresh = e[0] == "call" and e[2] in ("with_capacity", "new") and "Vec" in str(e[1])
+                            o_ = st["rv"]["fields"][fn_.index(nm)]
+                            vl = o_["p"]["local"] if o_["k"] in ("copy", "move") and not o_["p"]["proj"] else None
+                            fills, others = [], []
+                            for _, t2, fn2 in b.calls():
+                                if not (fn2 and t2["args"]):
+                                    continue
+                                r0 = strip(d.expr(t2["args"][0]))
+                                tgt_ = r0[1] if r0[0] in ("ref", "refmut") else None
+                                on_v = fresh and r0[0] in ("ref", "refmut") and strip(r0[1]) == e
+                                if not on_v:
+                                    continue
+                                if fn2["name"] in ("extend_from_slice", "extend", "clone_from", "extend_from_within") and len(t2["args"]) > 1:
+                                    srcx = d.expr(t2["args"][1])
+                                    whole_src = any(x[0] == "field" and x[2] == fidx["data"] and strip(x[1]) in (("deref", ("param", 1)), ("param", 1)) for x in walk(srcx)) \
+                                        and not any(isinstance(x, tuple) and x[0] == "call" and x[2] in ("index", "get", "get_unchecked", "split_at", "skip", "take", "step_by", "rev", "chunks") for x in walk(srcx))
+                                    (fills if whole_src else others).append(fn2["name"])
+                                elif fn2["name"] not in ("len", "capacity", "is_empty", "as_ptr", "reserve", "reserve_exact"):
+                                    others.append(fn2["name"])
+                            src_ok = fresh and len(fills) == 1 and not others
+                        elif nm == "data":
+                            pass
                         else:
                             src_ok = src_ok and e[0] == "field"
                         okc = okc and src_ok
@@ -847,6 +895,26 @@ def r_intoiter(f):
             n += 1
             names = [fn["name"] for _, _, fn in b.calls() if fn]
             ok = names == [want[b.self_head]]
+            if not ok and b.self_head in ("&TooDee", "&mut TooDee") and names and names[-1] == "new" and not b.has_loop():
+                # cells() / cells_mut() written out: FlattenExact::new(Rows { v: <the whole buffer>, cols: self.num_cols, skip_cols: 0 })
+                d_ = Dfx(b)
+                tdf_ = [a for a in f.adts if a["id"].split("::")[-1] == "TooDee"][0]
+                fx_ = {x["name"]: i for i, x in enumerate(tdf_["fields"])}
+                for _, _, st in b.stmts():
+                    if st["k"] == "assign" and st["rv"]["k"] == "agg" and st["rv"].get("agg") == "adt" and st["rv"]["adt"].split("::")[-1] == ("Rows" if b.self_head == "&TooDee" else "RowsMut"):
+                        vals = {k: strip(d_.expr(v)) for k, v in zip(st["rv"]["fields_names"], st["rv"]["fields"])}
+                        core_ = vals.get("v", ("?",))
+                        for _i in range(8):
+                            if core_[0] in ("ref", "refmut", "deref", "cast"):
+                                core_ = strip(core_[1])
+                            elif core_[0] == "call" and core_[2] in ("as_slice", "as_mut_slice", "deref", "deref_mut", "data", "data_mut", "as_ref", "as_mut") and core_[3]:
+                                core_ = strip(core_[3][0])
+                            else:
+                                break
+                        whole_ = core_ == ("param", 1) or (core_[0] == "field" and core_[2] == fx_["data"])
+                        cols_ = vals.get("cols", ("?",))
+                        cols_ok = (cols_[0] == "field" and cols_[2] == fx_["num_cols"]) or (cols_[0] == "call" and cols_[2] == "num_cols")
+                        ok = whole_ and cols_ok and const_usize(vals.get("skip_cols", ("?",))) == 0 and set(names[:-1]) <= {"as_slice", "as_mut_slice", "deref", "deref_mut", "data", "data_mut", "num_cols"}
             R.inst(b.ident, "resolves to %s()" % want[b.self_head], ok)
             if not ok:
                 R.fail(b.ident, "target:%s" % ",".join(names), "IntoIterator for %s calls %s, expected %s()" % (b.self_head, names, want[b.self_head]), b.where())
@@ -1027,6 +1095,93 @@ def r_sortkey(f):
     return R, n
 
 
+def view_contiguous_at(f, b, bi):
+    """is the view (`self` of b, a TooDeeView / TooDeeViewMut method) known to be gap-free whenever block bi is reached?
+    True when every path from the entry to bi takes the establishing edge of `stride == num_cols`,
+    `data.len() == num_cols * num_rows` or `num_rows == 1`."""
+    typ = (b.self_head or "").replace("&mut ", "").replace("&", "")
+    ad = [a for a in f.adts if a["id"].split("::")[-1] == typ]
+    if not ad:
+        return False
+    fi = {x["name"]: i for i, x in enumerate(ad[0]["fields"])}
+    d = Dfx(b)
+
+    def is_self_field(e, name):
+        e = strip(e)
+        return e[0] == "field" and e[2] == fi.get(name) and strip(e[1]) in (("deref", ("param", 1)), ("param", 1))
+
+    def is_span_len(e):
+        e = strip(e)
+        if e[0] in ("len", "ptrmeta") or (e[0] == "un" and e[1] == "PtrMetadata") or (e[0] == "call" and e[2] == "len"):
+            return any(is_self_field(x, "data") for x in walk(e))
+        return False
+
+    def is_area(e):
+        e = strip(e)
+        return e[0] == "bin" and e[1].startswith("Mul") and ((is_self_field(e[2], "num_cols") and is_self_field(e[3], "num_rows")) or (is_self_field(e[3], "num_cols") and is_self_field(e[2], "num_rows")))
+    est = set()
+    for sb, bl_ in enumerate(b.blocks):
+        tt = bl_["term"]
+        if not tt or tt["k"] != "switch" or bl_["cleanup"]:
+            continue
+        succs = [(int(a_), b2) for a_, b2 in tt["targets"]] + [(None, tt["otherwise"])]
+        e_ = strip(d.expr(tt["discr"]))
+        neg = False
+        while e_[0] == "un" and e_[1] == "Not":
+            neg = not neg; e_ = strip(e_[2])
+        if e_[0] != "bin" or e_[1] not in ("Eq", "Ne"):
+            continue
+        l_, r_ = e_[2], e_[3]
+        good = (is_self_field(l_, "num_rows") and const_usize(strip(r_)) == 1) or (is_self_field(r_, "num_rows") and const_usize(strip(l_)) == 1) \
+            or (is_self_field(l_, "stride") and is_self_field(r_, "num_cols")) or (is_self_field(r_, "stride") and is_self_field(l_, "num_cols")) \
+            or (is_span_len(l_) and is_area(r_)) or (is_span_len(r_) and is_area(l_))
+        if not good:
+            continue
+        for v_, sx in succs:
+            if v_ is not None and v_ not in (0, 1):
+                continue
+            truth = (v_ is None and any(x == 0 for x, _ in succs[:-1])) or (v_ == 1)
+            if neg:
+                truth = not truth
+            if (e_[1] == "Eq") == truth:
+                est.add((sb, sx))
+    if not est:
+        return False
+    seen_, work_ = set(), [0]
+    while work_:
+        x = work_.pop()
+        if x in seen_:
+            continue
+        seen_.add(x)
+        for y in b.succs(x):
+            if (x, y) not in est and not b.blocks[y]["cleanup"]:
+                work_.append(y)
+    return bi not in seen_
+
+
+def _whole_range(r):
+    """a range aggregate that spans a whole slice: `..`, `0..`, `..s.len()`, `0..s.len()`"""
+    if r[0] != "agg":
+        return False
+    nm = str(r[1])
+    parts = [strip(x) for x in r[2]]
+
+    def zero(e):
+        return const_usize(e) == 0
+
+    def full_len(e):
+        return e[0] in ("len", "ptrmeta") or (e[0] == "un" and e[1] == "PtrMetadata") or (e[0] == "call" and e[2] == "len")
+    if nm.endswith("RangeFull"):
+        return True
+    if nm.endswith("RangeFrom") and len(parts) == 1:
+        return zero(parts[0])
+    if nm.endswith("RangeTo") and len(parts) == 1:
+        return full_len(parts[0])
+    if nm.endswith("Range") and len(parts) == 2:
+        return zero(parts[0]) and full_len(parts[1])
+    return False
+
+
 def r_fill(f):
     R = Result("R-FILL")
     n = 0
@@ -1049,19 +1204,33 @@ def r_fill(f):
         ok = len(fl) == 1 and not b.has_loop()
         if ok:
             a0 = strip(fl[0][0]["args"][0] and d.expr(fl[0][0]["args"][0]))
-            ok = any(x[0] == "field" for x in walk(a0)) or any(x[0] == "call" and x[2] in ("data_mut", "deref_mut", "as_mut_slice") for x in walk(a0))
+            # the receiver is the buffer itself (`self.data`, `&mut *self.data`, `self.data_mut()`, `self.data.as_mut_slice()`), not a
+            # part of it
+            core_ = a0
+            for _ in range(8):
+                if core_[0] in ("ref", "refmut", "deref", "cast"):
+                    core_ = strip(core_[1])
+                elif core_[0] == "call" and core_[2] in ("deref_mut", "as_mut_slice", "as_mut", "borrow_mut", "data_mut") and core_[3]:
+                    core_ = strip(core_[3][0])
+                elif core_[0] == "call" and core_[2] in ("index_mut", "get_unchecked_mut") and len(core_[3]) == 2 and _whole_range(strip(core_[3][1])):
+                    core_ = strip(core_[3][0])      # `data[..data.len()]`, `data[..]`, `data[0..data.len()]`
+                else:
+                    break
+            ok = core_[0] == "field" or core_ == ("param", 1)
         R.inst(b.ident, "fills the whole backing buffer in one call", ok)
         if not ok:
             R.fail(b.ident, "shape", "TooDee::fill no longer fills the whole buffer", b.where())
     # an override (or an inherent method that hides the trait method) on the mutable view: the view's backing span also holds
     # the cells between its rows (cells of the parent outside the view), so filling the span as a whole is only right when the
     # view is contiguous, and that has to be established by a test that can establish it
-    b = f.get("TooDeeViewMut as TooDeeOpsMut::fill")
-    if b is not None and b.blocks:
-        n += 1
+    SPAN_MUTATORS = ("fill", "fill_with", "copy_from_slice", "clone_from_slice", "swap_with_slice", "reverse", "rotate_left", "rotate_right",
+                     "sort", "sort_by", "sort_by_key", "sort_unstable", "sort_unstable_by", "sort_unstable_by_key", "copy_within", "iter_mut", "chunks_exact_mut")
+    ad = [a for a in f.adts if a["id"].split("::")[-1] == "TooDeeViewMut"]
+    fi = {x["name"]: i for i, x in enumerate(ad[0]["fields"])} if ad else {}
+    for b in f.fn_bodies:
+        if not (b.self_head == "TooDeeViewMut" and b.kind != "Closure" and b.blocks and fi):
+            continue
         d = Dfx(b)
-        ad = [a for a in f.adts if a["id"].split("::")[-1] == "TooDeeViewMut"][0]
-        fi = {x["name"]: i for i, x in enumerate(ad["fields"])}
         dom = b.dominators()
 
         def is_self_field(e, name):
@@ -1079,52 +1248,72 @@ def r_fill(f):
             return e[0] == "bin" and e[1].startswith("Mul") and ((is_self_field(e[2], "num_cols") and is_self_field(e[3], "num_rows")) or (is_self_field(e[3], "num_cols") and is_self_field(e[2], "num_rows")))
         verdicts = []
         for bi, t, fn in b.calls():
-            if not (fn and fn["name"] in ("fill", "fill_with") and "slice" in (fn.get("path") or "") and t["args"]):
+            if not (fn and fn["name"] in SPAN_MUTATORS and "slice" in (fn.get("path") or "") and t["args"]):
                 continue
-            a0 = d.expr(t["args"][0])
-            if not any(is_self_field(x, "data") for x in walk(a0)) or any(x[0] == "call" and x[2] in ("rows_mut", "next", "row_pair_mut") for x in walk(a0) if isinstance(x, tuple) and len(x) > 2):
+            a0 = strip(d.expr(t["args"][0]))
+            # the receiver is the span itself: `&mut *self.data` / `self.data` (not a sub-slice, a row, a chunk ..)
+            core_ = a0
+            while core_[0] in ("ref", "refmut", "deref", "cast") or (core_[0] == "call" and core_[2] in ("deref_mut", "as_mut", "borrow_mut") and core_[3]):
+                core_ = strip(core_[1]) if core_[0] != "call" else strip(core_[3][0])
+            if not is_self_field(core_, "data"):
                 continue
+            # edges that establish contiguity: the true edge of `stride == num_cols`, `data.len() == num_cols * num_rows`,
+            # `num_rows == 1` (a single row has no gap) - every path to the call must take one of them
             sound, lossy, conds = False, False, 0
-            for sb in dom.get(bi, set()):
-                tt = b.blocks[sb]["term"]
-                if sb == bi or not tt or tt["k"] != "switch":
+            est_edges = set()
+            for sb, bl_ in enumerate(b.blocks):
+                tt = bl_["term"]
+                if not tt or tt["k"] != "switch" or bl_["cleanup"]:
                     continue
                 succs = [(int(a_), b2) for a_, b2 in tt["targets"]] + [(None, tt["otherwise"])]
-                taken = [(v_, sx) for v_, sx in succs if sx == bi or sx in dom.get(bi, set())]
-                if len(taken) != 1:
-                    continue
-                v_ = taken[0][0]
                 e_ = strip(d.expr(tt["discr"]))
                 neg = False
                 while e_[0] == "un" and e_[1] == "Not":
                     neg = not neg; e_ = strip(e_[2])
                 if e_[0] != "bin" or e_[1] not in ("Eq", "Ne"):
                     continue
-                truth = (v_ is None and any(x == 0 for x, _ in succs[:-1])) or (v_ == 1)
-                if neg:
-                    truth = not truth
-                if (e_[1] == "Eq") != truth:
-                    continue
                 l_, r_ = e_[2], e_[3]
-                mentions = any(is_self_field(x, "stride") or is_span_len(x) for o in (l_, r_) for x in walk(o))
+                single_row = (is_self_field(l_, "num_rows") and const_usize(strip(r_)) == 1) or (is_self_field(r_, "num_rows") and const_usize(strip(l_)) == 1)
+                mentions = single_row or any(is_self_field(x, "stride") or is_span_len(x) for o in (l_, r_) for x in walk(o))
                 if not mentions:
                     continue
                 conds += 1
-                if (is_self_field(l_, "stride") and is_self_field(r_, "num_cols")) or (is_self_field(r_, "stride") and is_self_field(l_, "num_cols")) or (is_span_len(l_) and is_area(r_)) or (is_span_len(r_) and is_area(l_)):
-                    sound = True
+                good = single_row or (is_self_field(l_, "stride") and is_self_field(r_, "num_cols")) or (is_self_field(r_, "stride") and is_self_field(l_, "num_cols")) or (is_span_len(l_) and is_area(r_)) or (is_span_len(r_) and is_area(l_))
+                if good:
+                    for v_, sx in succs:
+                        if v_ is not None and v_ not in (0, 1):
+                            continue
+                        truth = (v_ is None and any(x == 0 for x, _ in succs[:-1])) or (v_ == 1)
+                        if neg:
+                            truth = not truth
+                        if (e_[1] == "Eq") == truth:
+                            est_edges.add((sb, sx))
                 elif any(isinstance(x, tuple) and x[0] == "bin" and str(x[1]).startswith(("Div", "Rem", "Shr")) for o in (l_, r_) for x in walk(o)):
                     lossy = True
-            verdicts.append((bi, t, sound, lossy, conds))
-        for bi, t, sound, lossy, conds in verdicts:
+            if est_edges:
+                seen_, work_ = set(), [0]
+                while work_:
+                    x = work_.pop()
+                    if x in seen_:
+                        continue
+                    seen_.add(x)
+                    for y in b.succs(x):
+                        if (x, y) not in est_edges and not b.blocks[y]["cleanup"]:
+                            work_.append(y)
+                sound = bi not in seen_
+                if not sound and not lossy:
+                    conds = max(conds, 1)      # a recognised test exists but does not cover every path: undecided, not "no test"
+            verdicts.append((bi, t, fn["name"], sound, lossy, conds))
+        if verdicts:
+            n += 1
+        for bi, t, nm_, sound, lossy, conds in verdicts:
             if sound:
-                R.inst(b.ident, "fills the view's whole span only under `stride == num_cols` / `data.len() == num_cols * num_rows`", True)
+                R.inst(b.ident, "%s() on the view's whole span only under `stride == num_cols` / `data.len() == num_cols * num_rows`" % nm_, True)
             elif lossy or conds == 0:
-                R.inst(b.ident, "fills the view's whole span only when the view is contiguous", False)
-                R.fail(b.ident, "span-fill:%s" % ("lossy-test" if lossy else "no-test"), "%s fills the view's whole backing span (`self.data.fill(..)`), which also holds the parent's cells between the view's rows, %s: cells outside the view are overwritten" % (b.ident, "under a test built on a rounding division, which also passes for views that are one column narrower than their parent" if lossy else "without first establishing that the view is contiguous (stride == num_cols)"), b.where(t["span"]))
+                R.inst(b.ident, "%s() on the view's whole span only when the view is contiguous" % nm_, False)
+                R.fail(b.ident, "span-%s:%s" % (nm_, "lossy-test" if lossy else "no-test"), "%s applies %s() to the view's whole backing span (`self.data`), which also holds the parent's cells between the view's rows, %s: cells outside the view are overwritten or moved" % (b.ident, nm_, "under a test built on a rounding division, which also passes for views that are one column narrower than their parent" if lossy else "without first establishing that the view is contiguous (stride == num_cols)"), b.where(t["span"]))
             else:
-                R.inconc(b.ident, "whole-span fill under a contiguity test that is not one of the recognised forms (undecided)")
-        if not verdicts:
-            R.inst(b.ident, "override of fill never writes the view's span as a whole", True)
+                R.inconc(b.ident, "whole-span %s() under a contiguity test that is not one of the recognised forms (undecided)" % nm_)
     return R, n
 
 
